@@ -27,6 +27,7 @@ import (
 	"io"
 	"math/rand"
 	"os"
+	"regexp"
 	"sort"
 	"strconv"
 	"strings"
@@ -650,6 +651,9 @@ func c01RefEmbl(data []byte, withFeat bool) ([]c01Rec, bool) {
 	return recs, true
 }
 
+// the second expression of the GenBank detector
+var c01BannerRe = regexp.MustCompile("^[^ ]* +Genetic Sequence Data Bank *\n")
+
 // number of bytes up to and including the `+` of the first FASTQ record (what the fastq detector has to see)
 func c01FastqFirstRecordSpan(data []byte) int {
 	k := bytes.Index(data, []byte("\n+"))
@@ -733,9 +737,19 @@ type c01Style struct {
 	trailing int  // number of eols after the last record
 }
 
+// c01StyleOverride >= 0 forces the lay-out (thorough tier, family of small files): line ends LF / CR LF / mixed
+// (override % 3), 0..2 line ends after the last record (override / 3 % 3; 0 = missing final newline)
+var c01StyleOverride = -1
+
 func c01MakeStyle(rng *rand.Rand) c01Style {
 	k := rng.Intn(5)
 	st := c01Style{blank: rng.Intn(5) == 0, trailing: rng.Intn(3)}
+	if c01StyleOverride >= 0 {
+		k = []int{0, 3, 4}[c01StyleOverride%3]
+		st.blank = false
+		st.trailing = c01StyleOverride / 3 % 3
+		stat(fmt.Sprintf("small-style:eol%d:trailing%d", c01StyleOverride%3, st.trailing))
+	}
 	st.eol = func() string {
 		switch k {
 		case 0, 1, 2:
@@ -1375,6 +1389,24 @@ func (c01) Gen(rng *rand.Rand, tier string, emit func(string)) {
 
 	// ---- format sniffing (Ropen + OBIMimeTypeGuesser): first bytes that decide, BOM, tiny files, look-alikes
 	fqLong := func(n int) string { return "@r1 long read\n" + rep("ACGT", n/4) + "\n+\n" + rep("I", n/4*4) + "\n" }
+	// one read of exactly n nucleotides after the given title line, then a second short record
+	fqEdge := func(title, eol string, n int) string {
+		return title + eol + rep("ACGT", n/4+1)[:n] + eol + "+" + eol + rep("I5@+", n/4+1)[:n] + eol + "@r2" + eol + "AC" + eol + "+" + eol + "II" + eol
+	}
+	gbLongSeq := func(lines int) string {
+		t := ""
+		for i := 0; i < lines; i++ {
+			t += fmt.Sprintf("%9d ", 1+60*i) + rep("acgtacgtac ", 6)[:65] + "\n"
+		}
+		return t
+	}
+	emLongSeq := func(lines int, eol string) string {
+		t := ""
+		for i := 0; i < lines; i++ {
+			t += "     " + rep("acgtacgtac ", 6) + fmt.Sprintf("%9d", 60*(i+1)) + eol
+		}
+		return t
+	}
 	for _, c := range []string{
 		"\xef\xbb\xbf>a d\nACGT\n", "\xef\xbb\xbf@a\nAC\n+\nII\n", "\xef\xbb\xbfID   A; SV 1;\n//\n", ">", ">a", "> a\nAC\n", ">\nAC\n", "@", "@a", "@a\nAC\n", "@a\nAC\n+",
 		"@ a\nAC\n+\nII\n", "@a\n\nAC\n+\nII\n", "@a\nA C\n+\nII\n", "@a\r\nAC\r\n+\r\nII\r\n", "@a\rAC\r+\rII\r", "@a b\nAC\n\n+\nII\n",
@@ -1385,6 +1417,37 @@ func (c01) Gen(rng *rand.Rand, tier string, emit func(string)) {
 		">a <svg x\nACGT\n", ">a <?xml x\nACGT\n", ">a <html>\nACGT\n", "@a {\"x\":1}\nAC\n+\nII\n",
 		fqLong(2000), fqLong(3040), fqLong(3052), fqLong(3056), fqLong(3060), fqLong(3072), fqLong(3100), fqLong(5000),
 		">" + rep("t", 4000) + "\nACGT\n",
+		// the end of the 3072-byte window falls on every position around the line feed of the sequence line, of the
+		// title line, and around the `+` (patch C01-fastq-sniff-window-edge): read lengths 3062..3070 after a 4-byte
+		// title line, the same with CR LF, with CR CR LF, with a blank after the title
+		fqEdge("@r1", "\n", 3062), fqEdge("@r1", "\n", 3063), fqEdge("@r1", "\n", 3064), fqEdge("@r1", "\n", 3065), fqEdge("@r1", "\n", 3066),
+		fqEdge("@r1", "\n", 3067), fqEdge("@r1", "\n", 3068), fqEdge("@r1", "\n", 3069), fqEdge("@r1", "\n", 3070),
+		fqEdge("@r1", "\r\n", 3062), fqEdge("@r1", "\r\n", 3063), fqEdge("@r1", "\r\n", 3064), fqEdge("@r1", "\r\n", 3065), fqEdge("@r1", "\r\n", 3066), fqEdge("@r1", "\r\n", 3067),
+		fqEdge("@r1", "\r\r\n", 3062), fqEdge("@r1", "\r\r\n", 3063), fqEdge("@r1 x y", "\n", 3063), fqEdge("@r1 x y", "\n", 3064),
+		// title line whose line feed is the last byte of the window / the first byte outside / far outside (the
+		// last two are not recognised: the expression needs the line feed of the title line; hypothesis FqSniffOK)
+		fqEdge("@"+rep("t", 3069), "\n", 8), fqEdge("@"+rep("t", 3070), "\n", 8), fqEdge("@"+rep("t", 3071), "\n", 8), fqEdge("@"+rep("t", 3068), "\r\n", 8), fqEdge("@"+rep("t", 3069), "\r\n", 8), fqEdge("@"+rep("t", 4000), "\n", 8),
+		// first record longer than the window, the three other formats
+		">" + rep("t", 3070) + "\nACGT\n", ">a\n" + rep("ACGT", 2000) + "\n>b\nAC\n", ">a\n" + rep(rep("ACGT", 15)+"\n", 100) + ">b\nAC\n",
+		"LOCUS       A 8000 bp\nDEFINITION  long first entry.\nFEATURES             Location/Qualifiers\nORIGIN\n" + gbLongSeq(140) + "//\nLOCUS       B 4 bp\nFEATURES    x\nORIGIN\n        1 acgt\n//\n",
+		"LOCUS       A 8000 bp\nCOMMENT     " + rep("c", 80) + "\n" + rep("            "+rep("c", 80)+"\n", 60) + "FEATURES             Location/Qualifiers\nORIGIN\n        1 acgt\n//\n",
+		"ID   A; SV 1; linear; mRNA; STD; PLN; 8000 BP.\nDE   long first entry.\n" + rep("CC   "+rep("c", 70)+"\n", 60) + "SQ   Sequence 8 BP;\n     acgtacgt         8\n//\nID   B; SV 1;\nSQ   Sequence 4 BP;\n     acgt         4\n//\n",
+		"ID   A; SV 1;\r\nSQ   Sequence 8000 BP;\r\n" + emLongSeq(140, "\r\n") + "//\r\n",
+		// order of the questions (mimetype's Extend prepends: csv, embl, genbank, ecopcr2, fastq, fasta, then the
+		// built-in detectors): an EMBL file whose ID value is the banner of a GenBank release file is EMBL; a FASTA /
+		// FASTQ file with the banner as a definition inside the window is GenBank (hypothesis NoBanner); text that a
+		// built-in detector would claim (html, xml, json, php) after a `>` / `@` title stays FASTA / FASTQ
+		">a Genetic Sequence Data Bank\nACGT\n", ">a\nACGT\n>b  Genetic Sequence Data Bank  \nGG\n", "@a Genetic Sequence Data Bank\nACGT\n+\nIIII\n", "@a\nAC\n+\nII\n@b Genetic Sequence Data Bank\nGG\n+\nII\n",
+		">a Genetic Sequence Data Bank x\nACGT\n", ">a\n" + rep("ACGT", 800) + "\n>b Genetic Sequence Data Bank\nGG\n",
+		"LOCUS       A 4 bp Genetic Sequence Data Bank\nFEATURES    x\nORIGIN\n        1 acgt\n//\n", "#@ecopcr-v2 Genetic Sequence Data Bank\n", "ID   #@ecopcr-v2\n//\n",
+		"><html><body>\nACGT\n", "@<?xml version=\"1.0\"?>\nAC\n+\nII\n", "><?php\nACGT\n", "@{\"a\":1}\nAC\n+\nII\n",
+		// before patch C01-sniff-csv-asked-last the csv detector was asked first: FASTQ / FASTA files it claimed (quoted
+		// field spanning the record; JSON annotations with commas and quoted keys as obiconvert writes them)
+		"@r1 {\"count\":2,\"merged_sample\":{\"a\":1,\"b\":1}}\nACGT\n+\nIIII\n@r2 {\"count\":1,\"merged_sample\":{\"a\":1,\"b\":1}}\nGGCA\n+\nIIII\n",
+		">r1 {\"count\":2,\"x\":\"y\"}\nACGT\n>r2 {\"count\":1,\"x\":\"z\"}\nGGCA\n",
+		"@a,\"b\nACGT\n+\nI\",I\n@c,\"d\nACGT\n+\nI\",I\n", "@a,b\nACGT\n+\nIIII\n", ">a,b\nACGT\n>c,d\nGG\n", "ID   A,B\nXX   C,D\n",
+		"ID   Genetic Sequence Data Bank\nSQ   Sequence 4 BP;\n     acgt         4\n//\n", "ID     Genetic Sequence Data Bank  \nSQ   Sequence 4 BP;\n     acgt         4\n//\n",
+		"ID   Genetic Sequence Data Bank;\nSQ   Sequence 4 BP;\n     acgt         4\n//\n", "ID   Genetic Sequence Data Ban\nSQ   Sequence 4 BP;\n     acgt         4\n//\n", "ID   \nSQ   Sequence 4 BP;\n     acgt         4\n//\n",
 	} {
 		emit("sniff plain " + h(c))
 		if len(c) > 2 && len(c) < 200 {
@@ -1398,10 +1461,14 @@ func (c01) Gen(rng *rand.Rand, tier string, emit func(string)) {
 		maxrec   int
 		compact  bool
 		everyCap int // thorough: every size when len <= everyCap
+		small    bool // thorough: family of small files, lay-out forced (LF / CR LF / mixed x 0..2 final line ends)
 	}
-	plans := []plan{{"fa", 22, 6, false, 400}, {"fq", 22, 6, false, 400}, {"gb", 8, 4, false, 0}, {"em", 8, 4, false, 0}, {"gb", 4, 3, true, 700}, {"em", 4, 3, true, 700}}
+	plans := []plan{{"fa", 22, 6, false, 400, false}, {"fq", 22, 6, false, 400, false}, {"gb", 8, 4, false, 0, false}, {"em", 8, 4, false, 0, false}, {"gb", 4, 3, true, 700, false}, {"em", 4, 3, true, 700, false}}
 	if tier == "thorough" {
-		plans = []plan{{"fa", 30, 6, false, 400}, {"fq", 30, 6, false, 400}, {"gb", 6, 5, false, 0}, {"em", 6, 5, false, 0}, {"gb", 8, 3, true, 700}, {"em", 8, 3, true, 700}}
+		// the `small` plans: 9 files per format and seed (6 seeds: 54 per format), 1..3 records, the nine lay-outs
+		// LF / CR LF / mixed x missing final newline / one / two final line ends, EVERY buffer size 2..len+2
+		plans = []plan{{"fa", 30, 6, false, 400, false}, {"fq", 30, 6, false, 400, false}, {"gb", 6, 5, false, 0, false}, {"em", 6, 5, false, 0, false}, {"gb", 8, 3, true, 700, false}, {"em", 8, 3, true, 700, false},
+			{"fa", 9, 3, true, 1000, true}, {"fq", 9, 3, true, 1000, true}, {"gb", 9, 2, true, 1000, true}, {"em", 9, 2, true, 1000, true}}
 	}
 	k := 0
 	for _, pl := range plans {
@@ -1411,7 +1478,13 @@ func (c01) Gen(rng *rand.Rand, tier string, emit func(string)) {
 				nrec = 2 + rng.Intn(pl.maxrec-1)
 			}
 			c01ExoticTitles = fi%3 == 2
+			if pl.small {
+				nrec = 1 + (fi+rng.Intn(3))%pl.maxrec
+				c01StyleOverride = fi
+				c01ExoticTitles = false
+			}
 			data := c01GenFile(rng, pl.kind, nrec, pl.compact)
+			c01StyleOverride = -1
 			exotic := c01ExoticTitles
 			c01ExoticTitles = false
 			hexd := hx(data)
@@ -1423,6 +1496,9 @@ func (c01) Gen(rng *rand.Rand, tier string, emit func(string)) {
 			every := tier == "thorough" && len(data) <= pl.everyCap
 			if every {
 				stat("every-size-file:" + pl.kind)
+				if pl.small {
+					stat("every-size-small-file:" + pl.kind)
+				}
 			}
 			for _, b := range c01Sizes(rng, tier, len(data), every) {
 				emit(fmt.Sprintf("chunks %s %d %s", sp, b, hexd))
@@ -1988,11 +2064,35 @@ func (c01) Exec(c string) (string, []Fail) {
 			f, _ := c01Format(fm.name)
 			if want, wf := c01Ref(f, data); wf && len(want) > 0 {
 				stat("sniff-wellformed:" + fm.name)
+				if c01FastqFirstRecordSpan(data) > 3072 || (fm.name != "fq1" && len(data) > 3072) {
+					stat("sniff-first-record-longer-than-window:" + fm.name)
+				}
 				if mime != fm.mime {
 					cls := "dispatch"
 					if fm.name == "fq1" && c01FastqFirstRecordSpan(data) > 3072 {
 						// the detectors only see the first 3072 bytes (mimetype read limit)
 						cls = "dispatch-long-first-record"
+					}
+					// outside the hypotheses of the dispatch theorems (Props/C01X.lean), counted, not alarms:
+					// a FASTQ title line that does not end inside the window (FqSniffOK); an EMBL ID value that is the
+					// banner of a GenBank release file (EmSniffOK)
+					if k := bytes.IndexByte(data, '\n'); fm.name == "fq1" && (k < 0 || k >= 3072) {
+						stat("sniff-fastq-title-line-longer-than-window")
+						continue
+					}
+					// the release banner expression of the GenBank detector (asked before the FASTQ / FASTA ones, `[^ ]*` spans
+					// lines) matches the window (NoBanner); the csv detector (asked first, not modelled) claims the file
+					win := data
+					if len(win) > 3072 {
+						win = win[:3072]
+					}
+					if (fm.name == "fa" || fm.name == "fq1") && mime == "text/genbank" && c01BannerRe.Match(win) {
+						stat("sniff-banner-in-fasta-or-fastq-title")
+						continue
+					}
+					if mime == "text/csv" {
+						// repaired by patch C01-sniff-csv-asked-last: own signature
+						cls = "dispatch-csv"
 					}
 					fail(fm.name+"."+cls, "well-formed %s file (%s) guessed as %s", fm.name, w[1], mime)
 				}
@@ -2001,13 +2101,18 @@ func (c01) Exec(c string) (string, []Fail) {
 		switch mime {
 		case "text/fasta", "text/fastq", "text/ecopcr2", "text/genbank", "text/embl":
 			return "ok " + mime, fails
-		case "text/plain", "application/octet-stream", "text/csv", "empty":
+		case "text/csv":
+			// the csv detector (encoding/csv over the window, not modelled) is asked after the five since patch
+			// C01-sniff-csv-asked-last: none of them fired, the model must say `other`
+			stat("sniff-csv")
+			return "ok other", fails
+		case "text/plain", "application/octet-stream", "empty":
 			return "ok other", fails
 		}
-		// a built-in detector of the mimetype library claimed the file before the OBITools detectors were asked
+		// a built-in detector of the mimetype library (asked AFTER the OBITools detectors: none of them fired, the model
+		// must say `other`) or an error of the opener
 		stat("sniff-builtin")
-		caseTrivial = true
-		return "builtin", fails
+		return "ok other", fails
 
 	case "pair":
 		if len(w) != 3 {
